@@ -80,7 +80,7 @@ OpsAt(root, p) ==
            THEN {[op |-> "swap", path |-> p, i |-> i, j |-> j] : i \in 1..Len(n.kids), j \in 1..Len(n.kids)} \
                 {x \in {[op |-> "swap", path |-> p, i |-> i, j |-> j] : i \in 1..Len(n.kids), j \in 1..Len(n.kids)} : x.i >= x.j}
            ELSE {})
-     \cup (IF "swap" \in OpKinds /\ top /\ Base = "plain"
+     \cup (IF "swap" \in OpKinds /\ top /\ Base \in {"plain", "plainone"}
            THEN {[op |-> "swap", path |-> p, i |-> i, j |-> j] : i \in 2..Len(n.kids), j \in 2..Len(n.kids)} \
                 {x \in {[op |-> "swap", path |-> p, i |-> i, j |-> j] : i \in 2..Len(n.kids), j \in 2..Len(n.kids)} : x.i >= x.j}
            ELSE {})
@@ -98,7 +98,10 @@ IsFrag == Base \in {"frag", "fragdef", "fragmf", "fragemsg", "fragsplit", "fragd
 Delivery == IF Base \in {"fragsplit", "fragdefsplit"} THEN "split" ELSE "one"
 STYP == <<115, 116, 121, 112>>
 \* "plainurl": the data references name an external location (a non-empty C string in dref/url)
-ThePlainMovie == IF Base = "plainurl" THEN [urlloc |-> <<104, 116, 116, 112, 58, 47, 47, 120, 47, 121, 46, 109, 112, 52>>] @@ PlainMovie ELSE PlainMovie
+\* "plainone": the first track alone (every kind of sample table in one stbl, which is then the last one)
+OneTrack == << PlainTracks[1] >>
+ThePlainMovie == IF Base = "plainone" THEN [mts |-> <<3, 232>>, tracks |-> OneTrack, order |-> AscOrder(OneTrack), extra |-> <<>>]
+                 ELSE IF Base = "plainurl" THEN [urlloc |-> <<104, 116, 116, 112, 58, 47, 47, 120, 47, 121, 46, 109, 112, 52>>] @@ PlainMovie ELSE PlainMovie
 BaseTree == IF IsFrag THEN FragTreeZero(TheFragMovie, Delivery) ELSE PlainTree(ThePlainMovie, ZeroOffsets(ThePlainMovie))
 \* "plaineof": the media data box is the last box and says "to the end of the file" (size field 0)
 \* "fragemsg": an event message box (version 0 / version 1) in front of each of the two moofs
@@ -144,6 +147,7 @@ Spec == Init /\ [][Next]_vars
 RefView == ViewOf(Decoded(CASE Base \in {"fragmf", "fragemsg"} -> RenderFrag(FragMovie, "one", <<>>).file
                             [] Base = "fragsplit" -> RenderFrag(FragMovie, "split", <<>>).file
                             [] Base \in {"plaineof", "plainurl"} -> RenderPlain(PlainMovie, <<>>)
+                            [] Base = "plainone" -> RenderPlain(ThePlainMovie, <<>>)
                             [] OTHER -> RenderIt(<<>>)))
 LayoutInvariant == out.done => out.view = RefView
 Emit == out.done => PrintT("CASE " \o ToJson([file |-> out.bytes, ops |-> ops, base |-> Base, fields |-> out.fields, init |-> InitBytes]))
